@@ -739,6 +739,7 @@ Proof.
   induction Hf as [|t z ts zs [Hz Ht] Hf IH]; intros a Ha Hmax; cbn [sum_from zsum fold_right bind].
   - rewrite Z.add_0_r. reflexivity.
   - pose proof (zsum_nonneg _ _ Hf) as Hr. fold (zsum zs) in *.
+    assert (Hmax' : a + (z + zsum zs) <= max_mant) by exact Hmax.
     cbn [a_add dec]. rewrite Ht, Qcfrac_int_add. unfold fit_res.
     rewrite fit_int by lia. cbn [bind]. rewrite IH by lia. f_equal. f_equal. lia.
 Qed.
